@@ -365,7 +365,10 @@ where
             }
         });
         
+        // did this call do the load itself (as opposed to finding a cached result)?
+        let computed_here = std::cell::Cell::new(false);
         let res = self.storage.cache.get_or_compute(key, || {
+            computed_here.set(true);
             match self.resolve(key).and_then(|p| T::from_primitive(p, self)) {
                 Ok(obj) => Ok(AnySync::new(Shared::new(obj))),
                 Err(e) => {
@@ -387,6 +390,9 @@ where
                     }
                 }
             }
+            // a failure of the load that was just done for this very type is final: trying again would double the
+            // work at every level of nesting (a chain of n objects that ends in an error took 2^n loads)
+            Err(e) if computed_here.get() => Err(e.into()),
             Err(_) => {
                 // the cached failure may stem from a load of this object as a different type
                 let p = self.resolve(key)?;
